@@ -7,6 +7,7 @@ from vmon.checks.common import obs, fail, both_views, random_prefix, apply_prefi
 EXTREMES = "seq"   # worker re-labels every sixth case to the ends of the legal ranges (gen.extremify)
 RESTATE = "seq"    # worker adds a signature restating the one in force to every fifth case (gen.restate_signatures)
 SPLIT_WAITS = "seq"   # worker: every fifth case is built from relative messages with rests split into adjacent waits
+SCALE = True   # worker: every fortieth case is blown up by scale_case below
 PROP = "C08"
 MONITORS = ["split"]
 INSITU = {"k": ""}
@@ -22,6 +23,18 @@ FLOORS = {"quick": {"split.sound.armed": 4500, "c08.cut_note": 1500, "c08.event_
                     "c08.control_event_on_final_tick_boundary": 150},
           "thorough": {"split.sound.armed": 100000, "c08.cut_note": 30000}}
 
+
+def scale_case(case, i):
+    import random
+    r = random.Random(f"c08-big:{i}")
+    sp = case["seq"]
+    sp["notes"] = gen.big_notes(i, chans=(0, 1, 2), pitches=(60, 61, 62, 63), lmin=1, lmax=120, gap=(0, 60))
+    end = gen.end_of({"notes": sp["notes"], "extra": []})
+    sp["extra"] = [e for e in sp["extra"] if e[1] < 50] + [["cc", r.randrange(0, end), 0, 1 + k % 100, k % 120] for k in range(40)]
+    sp.pop("pad", None)
+    case["prefix"] = []
+    case["caps"] = ([96] * r.randint(40, 400)) if r.random() < 0.5 else [r.choice([24, 48, 96, 72, 7, 1000]) for _ in range(r.randint(100, 500))]
+    case["mode"] = "large"
 
 def make_case(rng, i, tier):
     stratum = "A" if i % 2 == 0 else "B"
